@@ -1095,6 +1095,32 @@ pub fn mutate_reply(msg: &str, how: &str) -> Vec<u8> {
                     out.truncate(from + k + 1);
                 }
             }
+            // num<v>@N: the N-th number of the whole message (attribute values and text alike) made absurd
+            f if f.starts_with("num") => {
+                let big = match &f[3..] {
+                    "63" => "9223372036854775808".to_string(),
+                    "64" => "18446744073709551615".to_string(),
+                    "neg" => "-1".to_string(),
+                    _ => "9".repeat(40),
+                };
+                let b = body.as_bytes();
+                let mut runs: Vec<(usize, usize)> = Vec::new();
+                let mut i = 0;
+                while i < b.len() {
+                    if b[i].is_ascii_digit() {
+                        let a = i;
+                        while i < b.len() && b[i].is_ascii_digit() {
+                            i += 1;
+                        }
+                        runs.push((a, i));
+                    } else {
+                        i += 1;
+                    }
+                }
+                if let Some(&(a, z)) = runs.get(n) {
+                    out = [&b[..a], big.as_bytes(), &b[z..]].concat();
+                }
+            }
             "del" => {
                 let starts: Vec<usize> = body[from..]
                     .match_indices('<')
